@@ -18,6 +18,33 @@ func TestVerif(t *testing.T) {
 func unitsA() []verifsim.Unit {
 	return []verifsim.Unit{
 		{
+			Name: "A.det", Props: []string{"C07"}, Run: runADet,
+			Rule:    "one case = seeded detector configuration (warmer/abs x one/two-diff, gap 1-5, edge 0-3, count 1-12, delta incl. 0 and 1, temp-thresh anywhere) + FFC-free frame stream whose frames are derived from the comparison frame with differences of delta-1/delta/delta+1 on count-1/count/count+1 pixels, values T-1/T/T+1, full-range redraws, border noise incl. zeros, camera resets; every frame is compared with the reference detector R-det; non-trivial = some but not all frames are motion; distinct = configuration + motion string",
+			Measure: "c07.cfg = (warmer, one-diff, gap, edge, delta, count)",
+			Real:    realA, Stub: stubA,
+			Assumptions: []string{"no schedule/clock/fault dimension: history generator + reference model only (DESIGN §5 C07)"},
+		},
+		{
+			Name: "A.pair", Props: []string{"C08"}, Run: runAPair,
+			Rule:    "one case = one seeded stream + a twin that differs only in border pixels (any values incl. 0; fixed or dynamic threshold, with FFC and resets) or only in interior pixels moved between two values <= temp-thresh (fixed threshold); both run through two real processors and compared frame by frame (detection, threshold, background interior, sink calls, start arguments); non-trivial = at least one pixel differs and at least one frame is motion; distinct = mode + configuration + motion string",
+			Measure: "c08 = (mode, edge, dynamic, delta)",
+			Real:    realA, Stub: stubA,
+			Assumptions: []string{"no schedule/clock/fault dimension: relational check over seeded paired histories"},
+		},
+		{
+			Name: "A.ffc", Props: []string{"C09"}, Run: runAFFC,
+			Rule:    "one case = seeded stream with FFC events (camera uptime clock drives TimeOn/LastFFCTime; fps 1-60 so a period is 10-600 frames; uptime jumps give 1-2 frame periods; FFCs in the first frames, back to back, overlapping resets); rule 1 on every frame; rule 2 on a twin history whose frames before one FFC period (or before one reset, fixed threshold) are redrawn; non-trivial = at least one FFC period; distinct = configuration + motion string + cut",
+			Measure: "c09 = (fps, dynamic, cut kind, periods)",
+			Real:    realA, Stub: stubA,
+		},
+		{
+			Name: "A.dyn", Props: []string{"C15"}, Run: runADyn,
+			Rule:    "one case = seeded stream with dynamic threshold, each of temp-thresh-min/max unset or set around the scene level, FFCs and resets; invariants evaluated in-package after every frame; non-trivial = the threshold was recomputed at least once; distinct = configuration + motion string",
+			Measure: "c15 = (min set, max set, edge, preview frames)",
+			Real:    realA, Stub: stubA,
+			Assumptions: []string{"no schedule dimension: seeded histories + invariants; detector internals (background, tempThresh) are read in-package"},
+		},
+		{
 			Name: "A.cont", Props: []string{"C17"}, Run: runACont,
 			Rule:    "one case = seeded configuration + history of valid frames with arbitrary motion, camera resets, closed windows, refused starts and non-overlapping test-recording requests, continuous recorder on; executed four times (as is / without requests / without continuous recorder / window always open) and compared; non-trivial = at least two continuous files; distinct = (max frames, number of files per sink, request positions)",
 			Measure: "c17 = (max-secs, fps, continuous files, test recordings, window configured)",
